@@ -56,7 +56,7 @@ impl Visitor for SuspiciousReverseLoopVisitor {
                 ..
             } = node.start();
             if let ast::Expression::Number(number) = node.end();
-            if let Ok(end) = str::parse::<f64>(&number.token().to_string());
+            if let Some(end) = number_value(&number.token().to_string());
             if end <= 1.0;
             then {
                 self.positions.push((
@@ -65,6 +65,14 @@ impl Visitor for SuspiciousReverseLoopVisitor {
                 ));
             }
         };
+    }
+}
+
+// The value of a numeral: hexadecimal integers are not understood by `f64::from_str`
+fn number_value(text: &str) -> Option<f64> {
+    match text.strip_prefix("0x").or_else(|| text.strip_prefix("0X")) {
+        Some(hex) => u64::from_str_radix(hex, 16).ok().map(|value| value as f64),
+        None => text.parse::<f64>().ok(),
     }
 }
 
